@@ -142,6 +142,33 @@ def stream(draw, max_len=40):
     return items
 
 
+# Names are opaque strings: firmware exposes arrays as `relay[0]`, devices call themselves `MCU [ttyUSB0]`. A case may be
+# renamed bijectively as a whole (the stream, the filters, the targets of writes), which must not change anything.
+RENAMES = {
+    1: {"B": "M [tty0]", "AB": "M tty0", "P": "P[1]", "PQ": "P1", "R": "R*", "x": "x[0]", "xy": "x0", "z": "z?", "w": "w*", "y": "x[0-9]", "Q": "P[12]"},
+    2: {"A": "*", "B": "A*", "P": "?", "PQ": "P?", "x": "[x]", "xy": "[!x]"},
+}
+
+
+def rename_case(case):
+    table = RENAMES.get(case.get("rename") or 0) if isinstance(case, dict) else None
+    if not table:
+        return case
+
+    def walk(v):
+        if isinstance(v, str):
+            return table.get(v, v)
+        if isinstance(v, list):
+            return [walk(x) for x in v]
+        if isinstance(v, tuple):
+            return tuple(walk(x) for x in v)
+        if isinstance(v, dict):
+            return {k: walk(x) for k, x in v.items()}
+        return v
+
+    return walk(case)
+
+
 def to_library(item):
     """Library message object as it would arrive from the wire (attribute values are strings)."""
     from indi.message import IndiMessage
